@@ -19,7 +19,7 @@ echo "untracked demo files: $(git status --porcelain | grep '^??' | awk '{print 
 CMD=$(python3 -c "import json;print(json.load(open('$D/meta.json'))['demo_command'])" | sed "s#/tmp/seed_$P#$W#g" | sed 's/&amp;/\&/g' | sed 's/   (.*$//' )
 echo "demo cmd: $CMD"
 ( eval "$CMD" ) > $D/demo_with_patch.log 2>&1; echo "demo with patch: rc=$?"
-git stash -q -- $(git diff --name-only) ; ( eval "$CMD" ) > $D/demo_without_patch.log 2>&1; echo "demo without patch: rc=$?"; git stash pop -q
+git apply -R $D/patch.diff ; ( eval "$CMD" ) > $D/demo_without_patch.log 2>&1; echo "demo without patch: rc=$?"; git apply $D/patch.diff
 # compile + tests of changed packages
 for d in $(git diff --name-only | xargs -n1 dirname | sort -u); do go build ./$d/ 2>&1 | tail -2; done
 cd /verif
